@@ -32,7 +32,8 @@ TRUSTED = ["harness/build.py", "observe.pkg_json", "the expected plain design is
 
 E_CLASH = {"k": "leaf", "kind": ".EI", "ports": [{"n": "i", "w": 1}, {"n": "units", "w": 1}, {"n": "inner", "w": 1}, {"n": "o", "w": 1}], "params": [],
            "py": {"k": "ext", "name": "EI"}}
-BDEF = {"name": "B19", "tree": {"sigs": [gen_design.leaf_sig("x", 1), gen_design.leaf_sig("y", 1, "input")], "subs": []}}
+BDEF = {"name": "B19", "tree": {"sigs": [gen_design.leaf_sig("x", 1), gen_design.leaf_sig("y", 1, "input"),
+                                         dict(gen_design.leaf_sig("z", 1), src="HOST", dest="DEVICE")], "subs": []}}
 
 
 def gen_unit_module(rng, mos_like=False):
@@ -52,7 +53,7 @@ def gen_unit_module(rng, mos_like=False):
         insts.append({"n": "e1", "of": copy.deepcopy(E1), "conns": [["a", {"k": "sig", "n": "bus"}], ["b", {"k": "sig", "n": names[0]}]]})
     use_bundle = rng.random() < 0.5
     if use_bundle:
-        bundles.append({"n": "bp", "of": "B19", "port": True})
+        bundles.append({"n": "bp", "of": "B19", "port": True, "role": rng.choice(["HOST", "DEVICE", None])})
         insts.append({"n": "rb", "of": copy.deepcopy(R), "conns": [["p", {"k": "bref", "root": "bp", "path": ["x"]}], ["n", {"k": "bref", "root": "bp", "path": ["y"]}]]})
     if rng.random() < 0.4:
         sigs.append({"n": "x1", "w": 1, "port": False, "dir": "none"})
